@@ -35,6 +35,10 @@ RULE += (" Added after the white-box review: "
          "every index array in C / Fortran / transposed / strided / "
          "read-only layout, negative axes, 64-bit values up to the "
          "dtype limit for bit-error counting ")
+RULE += (" Added after the second white-box review: a 'long' part with "
+         "arrays of 1e3..2e5 [2e6 thorough] elements of 8 integer types "
+         "(round trips, n^(n>>1), bit-error totals and per-axis sums "
+         "against vectorised references). ")
 
 LEVEL_TEXT = ("All 20 (class, order) symbol tables the library can build in "
               "the quantified range are enumerated in every run and examined "
@@ -229,6 +233,7 @@ def _tables(tier):
 
 
 PARTS = [
+    Part("long", enumerate=lambda tier: _long_cases(tier), quick_shards=4),
     Part("tables", enumerate=_tables, exhaustive=True, quick_shards=8),
     Part("psk_offset", _psk_offset_strategy, quick=400, thorough=20000,
          quick_shards=8),
@@ -616,7 +621,97 @@ def _check_biterr(case, ctx):
                 (axis, key, res[key], expect.get(key, 0), shape), tags)
 
 
-_DISPATCH = {"tables": _check_tables, "psk_offset": _check_psk_offset,
+def _popcount_vec(x):
+    """number of set bits per element of a uint64 array (byte table of
+    np.unpackbits; independent of the library's count_bits)"""
+    b = x.astype("<u8").view(np.uint8).reshape(x.shape + (8,))
+    return np.unpackbits(b, axis=-1).sum(axis=-1).astype(np.int64)
+
+
+def _check_long(case, ctx):
+    """arrays of 1e3..3e5 elements (where an implementation is tempted to
+    work block by block): round trips, one-bit law, bit-error totals and
+    per-axis sums against vectorised reference formulas"""
+    from pyphysim.util.conversion import binary2gray, gray2binary
+    from pyphysim.util.misc import count_bit_errors
+    n, dtype, bits = int(case["n"]), case["dtype"], int(case["bits"])
+    rs = np.random.RandomState(int(case["seed"]))
+    tags = dict(part="long", dtype=dtype, n_class=len(str(n)))
+    ctx.label("long:n~1e%d" % (len(str(n)) - 1), "long:dtype=" + dtype,
+              "long:bits=%d" % bits)
+    ctx.nontrivial(True)
+    hi = rs.randint(0, 2 ** 31, size=n).astype(np.uint64)
+    lo = rs.randint(0, 2 ** 31, size=n).astype(np.uint64)
+    full = (hi << np.uint64(31)) | lo
+    a = (full & np.uint64(2 ** bits - 1))
+    hi = rs.randint(0, 2 ** 31, size=n).astype(np.uint64)
+    lo = rs.randint(0, 2 ** 31, size=n).astype(np.uint64)
+    b = (((hi << np.uint64(31)) | lo) & np.uint64(2 ** bits - 1))
+    shape = tuple(case["shape"])
+    A = a.astype(dtype).reshape(shape)
+    B = b.astype(dtype).reshape(shape)
+    A0 = A.copy()
+    # round trips
+    g = np.asarray(binary2gray(A))
+    back = np.asarray(gray2binary(g))
+    if back.shape != A.shape or not np.array_equal(back.astype(np.uint64),
+                                                   a.reshape(shape)):
+        k = int(np.flatnonzero(back.reshape(-1).astype(np.uint64) != a)[0]) \
+            if back.shape == A.shape else -1
+        raise Violation("g2b_b2g_roundtrip:long", "gray2binary(binary2gray) "
+                        "of %d elements (%s): first wrong element at flat "
+                        "index %d" % (n, dtype, k), tags)
+    ref_g = a ^ (a >> np.uint64(1))
+    if not np.array_equal(g.astype(np.uint64), ref_g.reshape(shape)):
+        raise Violation("binary2gray_value:long", "binary2gray of %d "
+                        "elements (%s) differs from n ^ (n >> 1)" %
+                        (n, dtype), tags)
+    b2 = np.asarray(binary2gray(gray2binary(A)))
+    if not np.array_equal(b2.astype(np.uint64), a.reshape(shape)):
+        raise Violation("b2g_g2b_roundtrip:long", "binary2gray(gray2binary) "
+                        "of %d elements (%s)" % (n, dtype), tags)
+    if not np.array_equal(A, A0):
+        raise Violation("conversion_modified_its_argument", "a conversion "
+                        "changed the %d-element array handed to it" % n, tags)
+    # bit errors: total and per axis
+    ham = _popcount_vec(a ^ b).reshape(shape)
+    tot = count_bit_errors(A, B)
+    if np.ndim(tot) != 0 or int(tot) != int(ham.sum()) or tot != ham.sum():
+        raise Violation("biterr_total", "count_bit_errors of %d elements "
+                        "(%s, shape %r) = %r, Hamming distance = %d" %
+                        (n, dtype, shape, tot, int(ham.sum())), tags)
+    for axis in range(len(shape)):
+        ax = axis if axis % 2 == 0 else axis - len(shape)
+        res = np.asarray(count_bit_errors(A, B, ax))
+        want = ham.sum(axis=axis)
+        if res.shape != want.shape or not np.array_equal(
+                res.astype(np.int64), want):
+            raise Violation("biterr_axis", "count_bit_errors(..., axis=%d) "
+                            "of shape %r (%s): wrong sums" % (ax, shape,
+                                                              dtype), tags)
+    ctx.count("long_elements", n)
+
+
+def _long_cases(tier):
+    sizes = [(1000, [1000]), (4096, [64, 64]), (4097, [4097]),
+             (9000, [3, 3000]), (65536, [65536]), (70001, [70001]),
+             (131072, [2, 256, 256]), (200000, [200000])]
+    if tier == "thorough":
+        sizes += [(300007, [300007]), (1000000, [1000, 1000]),
+                  (2 ** 21 + 3, [2 ** 21 + 3]), (8193, [8193]),
+                  (12288, [3, 4096])]
+    cases = []
+    dts = [("uint8", 8), ("uint16", 16), ("int32", 31), ("uint32", 32),
+           ("int64", 63), ("uint64", 64), ("int64", 20), ("uint64", 1)]
+    for i, (n, shape) in enumerate(sizes):
+        for j in range(3 if tier == "quick" else len(dts)):
+            dtype, bits = dts[(i + 3 * j) % len(dts)]
+            cases.append(dict(part="long", n=n, shape=shape, dtype=dtype,
+                              bits=bits, seed=5000 + 17 * i + j))
+    return cases
+
+
+_DISPATCH = {"long": _check_long, "tables": _check_tables, "psk_offset": _check_psk_offset,
              "psk_history": _check_psk_history, "gray": _check_gray,
              "biterr": _check_biterr}
 
